@@ -103,6 +103,11 @@ type lifetimeOpts struct {
 	model       *storeModel
 	snapshots   bool
 	shutdownAt  int // step at which shutdown is requested (0 = never)
+	// shutdownSyncFails / shutdownDirFails: transient failures forced on the
+	// data device's next Sync calls and the state directory's next operations
+	// from the moment shutdown is requested (the commit a graceful shutdown
+	// performs must retry them like any other)
+	shutdownSyncFails, shutdownDirFails int
 	drain       bool
 	noEarly     bool
 	faults      bool
@@ -137,6 +142,19 @@ func snapshotMedia(m *media) (d, i *sim.DiskSnapshot, dir *sim.DirSnapshot) {
 		dir = m.dir.Snapshot()
 	}
 	return
+}
+
+// armShutdownFaults forces the transient failures of the shutdown commit.
+func (lt *lifetime) armShutdownFaults(m *media) {
+	o := lt.opts
+	if o.shutdownSyncFails > 0 && m.data != nil {
+		m.data.FailNextSyncs = o.shutdownSyncFails
+		lt.c.Count("fault_sync_error_during_shutdown", o.shutdownSyncFails)
+	}
+	if o.shutdownDirFails > 0 && m.dir != nil {
+		m.dir.FailNext = o.shutdownDirFails
+		lt.c.Count("fault_state_write_error_during_shutdown", o.shutdownDirFails)
+	}
 }
 
 // runLifetime starts a store process over media m and runs o.script.
@@ -191,6 +209,7 @@ func runLifetime(c *sim.RunCtx, pp *persistPlan, m *media, o *lifetimeOpts) *lif
 				e.shutdownSeq = s.Steps
 				c.Logf("shutdown requested")
 				c.Count("fault_graceful_shutdown", 1)
+				lt.armShutdownFaults(m)
 				e.group.cancel()
 			}
 			if !o.snapshots {
